@@ -208,6 +208,9 @@ func VpHTrie() {
 	}
 	check("C32:trie.delete-all-leaves-empty-trie", false)
 	vpAssert(t.root.isEmpty() && numNodes(t.root) == 1, "C32:trie.delete-all-leaves-empty-trie")
+	// deleting a registration that is no longer there changes nothing
+	err := t.DeleteMatch(ms[first].m, ms[first].id)
+	vpAssert(err == nil && t.root.isEmpty() && numNodes(t.root) == 1 && len(t.Get(key)) == 0, "C32:trie.delete-all-leaves-empty-trie")
 	vpObserveU64("nodes.end", uint64(numNodes(t.root)))
 }
 
